@@ -171,18 +171,45 @@ def _decoy(wl):
     return w
 
 
+def _evaluate_after_decoy(args):
+    wl, cfg, dec, ctx = args
+    out, viols = _evaluate(wl, cfg, dec, ctx, after_decoy=True)
+    return out, viols, dec.log
+
+
 def evaluate(wl, cfg, dec, ctx):
+    kind = wl.get("kind")
+    if cfg.get("decoy") and ctx.extra.get("decoys", 0) < 3 and kind in ("fit", "zhit", "kk_cnls", "bht"):
+        # history fault: own forked process (nothing it leaves behind reaches later runs) and an empty task
+        # cache (results cached by earlier clean runs must not hide its effect); the reference is computed
+        # first, in the clean job process
+        from simkit import batch
+
+        ctx.extra["decoys"] = ctx.extra.get("decoys", 0) + 1
+        ref = ctx.reference(fail=cfg.get("fail") or ())
+        if ref.status == "skipped":
+            return ref, []
+        out, viols, log = batch._isolated(_evaluate_after_decoy, (wl, cfg, dec, ctx), 900.0, arm_watchdog=False)
+        dec.log = log
+        return out, viols
+    return _evaluate(wl, cfg, dec, ctx)
+
+
+def _evaluate(wl, cfg, dec, ctx, after_decoy=False):
+    from simkit import simpool
+
     kind = wl.get("kind")
     ref = ctx.reference(fail=cfg.get("fail") or ())
     if ref.status == "skipped":
         return ref, []
     n_pf = len(ctx.cache.purity_failures)
     decoyed = False
-    if cfg.get("decoy") and ctx.extra.get("decoys", 0) < 2 and kind in ("fit", "zhit", "kk_cnls", "bht"):
-        ctx.extra["decoys"] = ctx.extra.get("decoys", 0) + 1
+    cache = ctx.cache
+    if after_decoy:
         run_entry(_decoy(wl), {"num_procs": 1, "callbacks": 0, "np_seed": 4321})
         decoyed = True
-    out = run_entry(wl, cfg, dec, ctx.cache)
+        cache = simpool.TaskCache()
+    out = run_entry(wl, cfg, dec, cache)
     if decoyed and out.status != "skipped":
         out.probes = dict(out.probes or {})
         out.probes["decoy_analysis_before"] = 1
